@@ -2,6 +2,8 @@ package checks
 
 import (
 	"bytes"
+	"compress/gzip"
+	"compress/zlib"
 	"context"
 	"errors"
 	"fmt"
@@ -118,6 +120,29 @@ func runC20(r *mc.Run) {
 		{"content-length-garbage+nil-body", map[string][]string{"Content-Length": {"-1", "x"}, "Transfer-Encoding": {"chunked"}}, nil},
 		{"retry-after+warning-headers", map[string][]string{"Retry-After": {"120"}, "Warning": {"199 - stale"}, "Content-Encoding": {"gzip"}, "Status": {"503 Service Unavailable"}}, []byte("{}")},
 		{"odd-names+empty-value-lists", map[string][]string{"x-odd_name": {}, "Content-Type": nil, " Leading-Space": {""}}, []byte("body")},
+	}
+	// bodies in a transfer / content encoding the headers announce (a complete gzip stream, a zlib stream, a chunked
+	// framing, base64 text), and bodies with white space, a byte-order mark or a NUL at their ends: the getter hands on
+	// what the wrapped getter returned — decoding is not its business
+	{
+		var gz, zl bytes.Buffer
+		zw := gzip.NewWriter(&gz)
+		zw.Write([]byte(`{"tcbInfo":{"id":"TDX"},"signature":"00"}`))
+		zw.Close()
+		fw := zlib.NewWriter(&zl)
+		fw.Write([]byte("plain body"))
+		fw.Close()
+		shapes = append(shapes,
+			shape{"gzip-body+Content-Encoding:gzip", map[string][]string{"Content-Encoding": {"gzip"}, "Content-Length": {fmt.Sprint(gz.Len())}}, gz.Bytes()},
+			shape{"gzip-body+content-encoding:GZIP", map[string][]string{"content-encoding": {"GZIP"}}, gz.Bytes()},
+			shape{"gzip-body-without-header", map[string][]string{"Content-Type": {"application/json"}}, gz.Bytes()},
+			shape{"zlib-body+Content-Encoding:deflate", map[string][]string{"Content-Encoding": {"deflate"}}, zl.Bytes()},
+			shape{"chunked-framing+Transfer-Encoding:chunked", map[string][]string{"Transfer-Encoding": {"chunked"}}, []byte("5\r\nhello\r\n0\r\n\r\n")},
+			shape{"base64-text+Content-Transfer-Encoding:base64", map[string][]string{"Content-Transfer-Encoding": {"base64"}}, []byte("aGVsbG8gd29ybGQ=")},
+			shape{"body-with-white-space-at-both-ends", map[string][]string{"Content-Type": {"application/json"}}, []byte(" \r\n{\"a\":1}\r\n\n ")},
+			shape{"body-with-byte-order-mark", map[string][]string{"Content-Type": {"application/json; charset=utf-8"}}, []byte("\xef\xbb\xbf{\"a\":1}")},
+			shape{"body-ending-in-NUL", nil, []byte("body\x00")},
+			shape{"url-escaped-header-value", map[string][]string{"Tcb-Info-Issuer-Chain": {"-----BEGIN%20CERTIFICATE-----%0Aabc%2B%2F%3D%0A"}}, []byte("body")})
 	}
 	// long bodies (a TCB Info is a few KiB, a CRL may be larger), with and without spare capacity behind them
 	for _, n := range []int{63, 64, 65, 100, 2401, 70000} {
